@@ -70,3 +70,47 @@ var protocolFunctionNames = []string{
 	"ESDTWipe", "ESDTPause", "ESDTUnPause", "ESDTSetRole", "ESDTUnSetRole", "ESDTLocalMint", "ESDTLocalBurn", "ESDTNFTTransfer", "ESDTNFTCreate",
 	"ESDTNFTAddQuantity", "ESDTNFTCreateRoleTransfer", "ESDTNFTBurn", "ESDTNFTAddURI", "ESDTNFTUpdateAttributes", "MultiESDTNFTTransfer",
 }
+
+// Function and role names as the protocol spells them (the node routes by these strings; the library's constants are not trusted).
+const (
+	refBuiltInFunctionChangeOwnerAddress        = "ChangeOwnerAddress"
+	refBuiltInFunctionClaimDeveloperRewards     = "ClaimDeveloperRewards"
+	refBuiltInFunctionESDTBurn                  = "ESDTBurn"
+	refBuiltInFunctionESDTFreeze                = "ESDTFreeze"
+	refBuiltInFunctionESDTLocalBurn             = "ESDTLocalBurn"
+	refBuiltInFunctionESDTLocalMint             = "ESDTLocalMint"
+	refBuiltInFunctionESDTNFTAddQuantity        = "ESDTNFTAddQuantity"
+	refBuiltInFunctionESDTNFTAddURI             = "ESDTNFTAddURI"
+	refBuiltInFunctionESDTNFTBurn               = "ESDTNFTBurn"
+	refBuiltInFunctionESDTNFTCreate             = "ESDTNFTCreate"
+	refBuiltInFunctionESDTNFTCreateRoleTransfer = "ESDTNFTCreateRoleTransfer"
+	refBuiltInFunctionESDTNFTTransfer           = "ESDTNFTTransfer"
+	refBuiltInFunctionESDTNFTUpdateAttributes   = "ESDTNFTUpdateAttributes"
+	refBuiltInFunctionESDTPause                 = "ESDTPause"
+	refBuiltInFunctionESDTTransfer              = "ESDTTransfer"
+	refBuiltInFunctionESDTUnFreeze              = "ESDTUnFreeze"
+	refBuiltInFunctionESDTUnPause               = "ESDTUnPause"
+	refBuiltInFunctionESDTWipe                  = "ESDTWipe"
+	refBuiltInFunctionMultiESDTNFTTransfer      = "MultiESDTNFTTransfer"
+	refBuiltInFunctionSaveKeyValue              = "SaveKeyValue"
+	refBuiltInFunctionSetESDTRole               = "ESDTSetRole"
+	refBuiltInFunctionSetUserName               = "SetUserName"
+	refBuiltInFunctionUnSetESDTRole             = "ESDTUnSetRole"
+	refESDTRoleLocalBurn                        = "ESDTRoleLocalBurn"
+	refESDTRoleLocalMint                        = "ESDTRoleLocalMint"
+	refESDTRoleNFTAddQuantity                   = "ESDTRoleNFTAddQuantity"
+	refESDTRoleNFTAddURI                        = "ESDTRoleNFTAddURI"
+	refESDTRoleNFTBurn                          = "ESDTRoleNFTBurn"
+	refESDTRoleNFTCreate                        = "ESDTRoleNFTCreate"
+	refESDTRoleNFTUpdateAttributes              = "ESDTRoleNFTUpdateAttributes"
+)
+
+// Gas-schedule section names (the node's gas schedule files) and the code-metadata bit layout (byte 0: upgradeable 0x01,
+// readable 0x04; byte 1: payable 0x02), as literals.
+const (
+	refBuiltInCostSection       = "BuiltInCost"
+	refBaseOperationCostSection = "BaseOperationCost"
+	refMetadataUpgradeable      = 1
+	refMetadataReadable         = 4
+	refMetadataPayable          = 2
+)
